@@ -9,9 +9,9 @@ from vlib import core, gen
 
 PROP = "C09"
 META = {
-    "technique": "Coq proof: slot-ownership invariant (the location lists are a permutation of all slots) by induction over all histories, allocation choices and fault patterns; quiescence corollary; tie: differential execution against real session pairs + independent in-use==0 oracle",
-    "level_text": "C09_inv (every slot in exactly one location, for every history/allocation/fault pattern) and C09 (once every stream is closed on both ends, nothing is in flight and the application holds nothing, every slot is free) hold unconditionally for the current tree, whose recycle() cleans the pinned list (switch sw_recycle_cleans_pinned regenerated from buffer.go on every run; Props/C09.v stops compiling if the call disappears). The former defect (pinned slices leaked at Close: 4096 B stayed in use) is repaired by a234a74; its history stays as directed case 0 of every run and as a regression Example about the old-code variant of the model.",
-    "level_note": "Trusted: coqc kernel; allocation and slice sizes are inputs of the model (the allocator itself is C01/C02's subject); one label = one API call or one run of handlePolling (close() is atomic in the model: the late-data-for-a-closing-stream path is only reached through the unknown-stream branch); correspondence is sampled; event-loop delivery is waited for with generous bounds.",
+    "technique": "Coq proof: slot-ownership invariant (the location lists are a permutation of all slots) by induction over all histories, allocation choices and fault patterns - at API granularity (Model/Accounting.v) and at the granularity of the code's critical sections with every interleaving of user threads and both event loops (Model/AccountingConc.v); quiescence corollaries; tie: differential execution of BOTH models against real session pairs (sequential ops compared after every op, concurrent traffic phases compared at the following quiescent point) + independent in-use==0 oracle, also after phases in which closes race with the peer's flushes",
+    "level_text": "C09_inv / C09_inv_interleaved (every slot in exactly one location, for every history resp. every interleaving of critical sections, every allocation outcome and fault pattern) and C09 / C09_interleaved (once every stream is closed on both ends - every close() has returned, both event loops are between elements -, nothing is in flight and the application holds nothing, every slot is free) hold unconditionally for the current tree, whose recycle() cleans the pinned list (switch sw_recycle_cleans_pinned regenerated from buffer.go on every run; Props/C09.v stops compiling if the call disappears). The former defect (pinned slices leaked at Close: 4096 B stayed in use) is repaired by a234a74; its history stays as directed case 0 of every run and as a regression Example about the old-code variant of the model.",
+    "level_note": "Trusted: coqc kernel; allocation and slice sizes are inputs of the model (the allocator itself is C01/C02's subject); the fine-grained model keeps Write/Flush/Release/Reuse atomic (they touch owner-local buffers, the free lists - atomic per slot, C01/C02 - and one atomic queue put) and assumes one owner thread per stream object; socket events (fallback data, close notification) carry no slots and are delivered in one step; correspondence is sampled; event-loop delivery is waited for with generous bounds.",
 }
 
 
@@ -107,14 +107,17 @@ def op_to_coq(o):
         return "HL (Inject %s %s %s)" % (e, sid, chain)
     if k == "poll":
         return "HL (Poll %s)" % e
+    if k == "sync":
+        return "HSync"
     raise ValueError("unknown op " + k)
 
 
 def case_to_coq(c, fx):
     steps = []
-    for o in c["ops"]:
-        steps.append("{| a_op := %s; a_inuse := %s; a_qs := %s; a_qc := %s |}"
-                     % (op_to_coq(o), core.coq_list([core.z(x) for x in o["inuse"]]), core.z(o["q"][0]), core.z(o["q"][1])))
+    upto = c.get("compare_upto") or len(c["ops"])    # ops after a racy phase are schedule dependent: end oracle only
+    for o in c["ops"][:upto]:
+        steps.append("{| a_op := %s; a_cmp := %s; a_inuse := %s; a_qs := %s; a_qc := %s |}"
+                     % (op_to_coq(o), b(not o.get("nocmp")), core.coq_list([core.z(x) for x in (o["inuse"] or [])]), core.z(o["q"][0]), core.z(o["q"][1])))
     return "{| a_fx := %s; a_caps := %s; a_qcap := %s; a_steps := %s |}" % (b(fx), natlist(c["caps"]), core.z(c["qcap"]), core.coq_list(steps))
 
 
@@ -155,7 +158,9 @@ def eval_cases(cases, fx, tag):
     return sorted(bad)
 
 
-FIELDS = {1: "per-class in-use slot counts", 2: "number of elements in flight in the queues",
+FIELDS = {11: "per-class in-use slot counts (fine-grained model AccountingConc)", 12: "number of elements in flight in the queues (fine-grained model AccountingConc)",
+          19: "the op is not enabled in the fine-grained model AccountingConc",
+          1: "per-class in-use slot counts", 2: "number of elements in flight in the queues",
           9: "the op is not enabled in the model (the allocator handed out a slot the model holds elsewhere, or the stream is not live)"}
 
 
@@ -179,6 +184,8 @@ def brief_op(o):
     if o.get("slots"):
         d["slots"] = o["slots"] if len(o["slots"]) <= 12 else ("%d slots" % len(o["slots"]))
     d["inuse"] = o["inuse"]
+    if o.get("nocmp"):
+        d["inside_concurrent_phase"] = True
     return d
 
 
@@ -257,6 +264,9 @@ def check(run):
                 "non-trivial = at least one fault/boundary feature besides injected data (exhaustion, heap-slice fallback, queue full, flush on a closed stream, close with unread/unsent/pinned data, multi-slice write, partial read, stream re-created for late data, parked slice); distinct by op list",
         "samples": [brief(c) for c in cases[2:4]],
         "features": feats, "op_mix": opmix, "total_ops": nops,
+        "ops_inside_concurrent_phases": sum(1 for c in cases for o in c["ops"] if o.get("nocmp")),
+        "quiescent_points_compared_after_concurrent_phases": opmix.get("sync", 0),
+        "histories_ending_in_a_racy_close_phase": sum(1 for c in cases if c.get("compare_upto")),
         "histories_rerun_after_an_expired_harness_wait": sum(1 for c in cases if c.get("retries")),
         "expired_waits": [w for c in cases for w in (c.get("expired") or [])][:10],
         "queue_caps": sorted({c["qcap"] for c in cases}),
@@ -266,7 +276,8 @@ def check(run):
     })
     run.assumptions += [
         "allocation choices and per-slice byte counts are inputs of the model (taken from the real run); the allocator itself is C01/C02's subject",
-        "one label = one API call or one complete run of handlePolling; Stream.close() is atomic in the model",
+        "Model/Accounting.v: one label = one API call or one complete run of handlePolling; Model/AccountingConc.v: one label = one critical section (PollOne/LoopAdd/LoopCheck, six steps of Stream.close(), MoveTo, ReadK), one owner thread per stream object, Write/Flush/Release/Reuse atomic",
+        "concurrent traffic phases: per-stream logs are replayed one stream after the other (valid because the streams do not interact, the queue cannot fill and no slot is reused inside a phase) and compared at the quiescent point; after a racy close phase only the end oracle applies",
         "the harness moves pendingData into recvBuf (what readMore does first) before each read so that reads never block",
         "harness waits poll up to 60 s; a history in which a wait expires is re-run from scratch (fresh sessions, same seed) up to 2 more times; only a wait that expires in all 3 runs is reported, as an oracle failure (C09:peer-never-drains-queue / C09:socket-event-never-reaches-peer)",
         "data for unknown streams and queue-full are induced by putting elements into the real queue without a wake-up; exhaustion by holding all but k slots via bufferManager.allocShmBuffer",
